@@ -59,9 +59,11 @@ type plainState struct {
 	complete  bool   // the current request was handed out completely
 	unbounded bool   // it is not known where the current request ends
 
-	handling bool      // the current request is handled (the response is not written yet)
-	deadline time.Time // the read deadline
-	closed   bool
+	requests  int       // the number of requests which were handed out completely
+	responses int       // the number of requests whose response was written
+	handling  bool      // a request is handled (its response is not written yet)
+	deadline  time.Time // the read deadline
+	closed    bool
 }
 
 // maxPlainHead is the maximum size of a request head for which the end of the request is determined
@@ -185,6 +187,9 @@ func (con *Connection) SetHandlingRequest(handling bool) {
 	defer con.notifyMutex.Unlock()
 
 	con.plain.mutex.Lock()
+	if con.plain.handling && handling == false {
+		con.plain.responses++
+	}
 	con.plain.handling = handling
 	con.plain.cond.Broadcast()
 	con.plain.mutex.Unlock()
@@ -277,12 +282,12 @@ func (con *Connection) RequestEndKnown() bool {
 }
 
 // waitForResponse blocks while the current request was handed out completely and its response
-// is not written yet. Then the next request begins.
+// is not written yet (whether the server has begun to handle it or not). Then the next request begins.
 func (p *plainState) waitForResponse() error {
 	p.mutex.Lock()
 	defer p.mutex.Unlock()
 
-	for p.complete && p.handling {
+	for p.complete && p.responses < p.requests {
 		if p.closed {
 			return io.EOF
 		}
@@ -317,7 +322,10 @@ func (p *plainState) scan(data []byte) int {
 			}
 			n += int(take)
 			p.body -= take
-			p.complete = p.body == 0
+			if p.body == 0 {
+				p.complete = true
+				p.requests++
+			}
 			continue
 		}
 
@@ -335,7 +343,10 @@ func (p *plainState) scan(data []byte) int {
 			p.head = nil
 			p.body = length
 			p.unbounded = ok == false
-			p.complete = ok && length == 0
+			if ok && length == 0 {
+				p.complete = true
+				p.requests++
+			}
 		}
 	}
 
